@@ -238,6 +238,7 @@ class Stack:
         self.subscribed = set()
         self.findsub = set()
         self.conn_lost = False
+        self.lost_channels = set()
         self.disc_started = False
         hooks = cfg.get("wrap")
         if hooks:
@@ -329,11 +330,23 @@ class Stack:
             self.disc_started = False
             prot.stop()
         elif f == "conn_lost":
-            if self.conn_lost:
+            # a=[] : both sockets go; a=["u"] / ["m"]: only that transport reports the loss, the other keeps receiving
+            which = a[0] if a else "both"
+            if which in self.lost_channels or "both" in self.lost_channels:
                 return "skip"
+            self.lost_channels.add(which)
             self.conn_lost = True
-            self.sim.close_sockets(NODE_NAME)
-            self.adapter_u.connection_lost(None)
+            if which == "both":
+                self.sim.close_sockets(NODE_NAME)
+                self.adapter_u.connection_lost(None)
+            else:
+                sock = self.sim.sockets.pop((NODE_ADDR, which), None)
+                if sock is not None:
+                    sock.queue.clear()
+                    for g in self.sim.groups.values():
+                        if sock in g:
+                            g.remove(sock)
+                (self.adapter_u if which == "u" else self.adapter_m).connection_lost(None)
         elif f == "watch":
             fi, name = a
             if name in self.registered:
@@ -434,6 +447,12 @@ class Stack:
             self.service.register_method(mid, self._handler(mid, kind))
         elif f == "svc_setup":
             self.svc_setup()
+        elif f == "unsubscribe_direct":
+            # what tests/test_service.py::test_unsubscribe_unknown does: the listener interface called for a subscription it never saw
+            g, epspec, counter, src = a
+            sub = sd.EventgroupSubscription(service_id=self.service.service_id, instance_id=self.service.instance_id, major_version=self.service.version_major,
+                                            id=g, counter=counter, ttl=3, endpoints=frozenset([lib_option(tuple(epspec))]))
+            self.service.client_unsubscribed(sub, PEERS[src])
         elif f == "set_value":
             g, ev, hx = a
             self.evgroups[g].values[ev] = bytes.fromhex(hx)
